@@ -13,6 +13,7 @@ use crate::vf::gen::*;
 use crate::vf::gen_app::*;
 use crate::vf::normalise::*;
 use crate::vf::session::*;
+use crate::vf::shadow::{shadow_opt, Shadow, ShadowGuard};
 use crate::vf::sut::*;
 use crate::vf::traffic::{bmut, hostile_stun, BMut, Pay};
 use crate::vf::util::*;
@@ -43,6 +44,10 @@ pub struct Case {
     /// same plus further IPv4 / IPv6 addresses (lists of unequal size per family)
     #[serde(default)]
     pub self_list: u8,
+    /// sibling traffic (vf/shadow.rs) accompanying the exchange in context `a` only: the answer
+    /// must not depend on where it was asked whatever else the responder has been asked meanwhile
+    #[serde(default)]
+    pub shadow: Option<Shadow>,
 }
 
 fn cfg_for(c: &Case) -> Cfg {
@@ -78,6 +83,13 @@ fn wh() -> impl Strategy<Value = Where> {
 }
 
 pub fn case_strategy() -> impl Strategy<Value = Case> {
+    (case_strategy0(), shadow_opt()).prop_map(|(mut c, sh)| {
+        c.shadow = sh;
+        c
+    })
+}
+
+fn case_strategy0() -> impl Strategy<Value = Case> {
     let pay = prop_oneof![
         6 => app_req().prop_map(Pay::App),
         2 => (app_req(), vec(bmut(), 1..3)).prop_map(|(a, m)| Pay::Mutated(a, m)),
@@ -116,7 +128,7 @@ pub fn case_strategy() -> impl Strategy<Value = Case> {
             }
             _ => {}
         }
-        Case { mac, cmac, key, tcp, pay, a, b, self_list }
+        Case { shadow: None, mac, cmac, key, tcp, pay, a, b, self_list }
     })
 }
 
@@ -270,7 +282,19 @@ pub fn check(c: &Case, st: &mut Stats) -> Check {
     }
     let payload = c.pay.bytes(c.tcp);
     st.frames(if c.tcp { 4 } else { 2 });
-    let ra = ask(&sut, c, &c.a, &payload)?;
+    let ra = {
+        let _g = ShadowGuard::set(&c.shadow);
+        let r = ask(&sut, c, &c.a, &payload);
+        if c.shadow.is_some() {
+            st.class("context-a-accompanied-by-shadow-traffic");
+            st.add_extra("shadow_frames", crate::vf::shadow::frames_sent());
+            if crate::vf::shadow::tainted() {
+                st.exclude("shadow-tuple-collision");
+                return Ok(());
+            }
+        }
+        r?
+    };
     let rb = ask(&sut, c, &c.b, &payload)?;
     let varied = format!("{}{}", if c.a.v4 != c.b.v4 { "ipversion+" } else if (c.a.c4, c.a.s4, c.a.c6, c.a.s6) != (c.b.c4, c.b.s4, c.b.c6, c.b.s6) { "addresses+" } else { "" }, if (c.a.sport, c.a.dport) != (c.b.sport, c.b.dport) { "ports" } else { "" });
     st.class(&format!("{}:{}:{}", c.pay.kind(), if c.tcp { "tcp" } else { "udp" }, if varied.is_empty() { "same-context" } else { &varied }));
@@ -358,7 +382,7 @@ fn sweep_ask(sut: &Sut, c: &Case, w: &Where, payload: &[u8]) -> Result<Option<(R
 pub fn sweep_check(s: &Sweep, st: &mut Stats, reference: &mut Option<Option<(Responder, Vec<u8>, u16)>>) -> Check {
     let g = goldens();
     let (name, req) = &g[s.golden % g.len()];
-    let c = Case { mac: [0x02, 0x42, 0xac, 0x11, 0x00, 0x02], cmac: [2, 0, 0, 0, 0, 9], key: [11, 22], tcp: s.tcp, pay: Pay::App(req.clone()), a: sweep_where(s, true), b: sweep_where(s, false), self_list: 0 };
+    let c = Case { shadow: None, mac: [0x02, 0x42, 0xac, 0x11, 0x00, 0x02], cmac: [2, 0, 0, 0, 0, 9], key: [11, 22], tcp: s.tcp, pay: Pay::App(req.clone()), a: sweep_where(s, true), b: sweep_where(s, false), self_list: 0 };
     let mut cfg = Cfg::plain(c.mac);
     cfg.key = c.key;
     let sut = Sut::new(&cfg);
@@ -439,7 +463,7 @@ impl Prop for C19 {
                         let w4 = Where { v4: true, c4: [198, 51, 100, 7], s4: [203, 0, 113, 9], c6: [0x20, 1, 0xd, 0xb8, 0, 1, 0, 0, 0, 0, 0, 0, 0, 0, 0, 7], s6: [0x20, 1, 0xd, 0xb8, 0, 2, 0, 0, 0, 0, 0, 0, 0, 0, 0, 9], sport: 40000, dport: 111 };
                         let mut w6 = w4.clone();
                         w6.v4 = false;
-                        let c = Case { mac: [0x02, 0x42, 0xac, 0x11, 0x00, 0x02], cmac: [2, 0, 0, 0, 0, 9], key: [11, 22], tcp, pay: Pay::App(AppReq::Rpc(call)), a: w4, b: w6, self_list: 0 };
+                        let c = Case { shadow: None, mac: [0x02, 0x42, 0xac, 0x11, 0x00, 0x02], cmac: [2, 0, 0, 0, 0, 9], key: [11, 22], tcp, pay: Pay::App(AppReq::Rpc(call)), a: w4, b: w6, self_list: 0 };
                         let r = check(&c, ctx.st);
                         ctx.run_one("where", &c, r);
                     }
